@@ -481,13 +481,13 @@ pub proof fn lemma_balance_days_valid(y: int, m: int, d: int)
 }
 
 // ---- range helpers shared by units tz, postparse (moved here so that unit greg proves them once) ----
-/// a valid date within +-3e8 days of the epoch has |year| <= 1.4M
+/// a valid date within +-3.1e8 days of the epoch has |year| <= 1.4M
 pub proof fn lemma_year_ok(y: int, m: int, d: int)
-    requires valid_ymd(y, m, d), -300_000_000 <= days_from_civil(y, m, d) <= 300_000_000,
+    requires valid_ymd(y, m, d), -310_000_000 <= days_from_civil(y, m, d) <= 310_000_000,
     ensures -1_400_000 <= y <= 1_400_000,
 {
-    assert(days_from_civil(-1_400_000, 1, 1) < -300_000_000);
-    assert(days_from_civil(1_400_000, 12, 31) > 300_000_000);
+    assert(days_from_civil(-1_400_000, 1, 1) < -310_000_000);
+    assert(days_from_civil(1_400_000, 12, 31) > 310_000_000);
     if y < -1_400_000 { lemma_dfc_mono(y, m, d, -1_400_000, 1, 1); }
     if y > 1_400_000 { lemma_dfc_mono(1_400_000, 12, 31, y, m, d); }
 }
